@@ -354,7 +354,7 @@ Definition entry_of_t (t : tinfo) : Spec.VmTar.entry :=
 (* what ends the header area after the last member: the next block is not a header (a zero block,
    a short block, the end of the file, bytes whose checksum does not match); an archive without
    members must end with a zero block (an empty file is not an archive) *)
-Definition stops (a : list Spec.VmTar.amember) (rest : list Z) : Prop :=
+Definition stops {A : Type} (a : list A) (rest : list Z) : Prop :=
   exists e, frombuf true (rd rest 0 BLOCK) = HErr e /\ (a = [] -> e = EEof).
 
 (* no block of the file, at any offset, carries the visor magic where VisorTarInfo.frombuf looks *)
